@@ -112,6 +112,56 @@ impl Shell {
     pub fn is_alias(&self, name: &str) -> (r: bool) ensures r == smap(self.aliases).contains_key(name@) { unimplemented!() }
 }
 //@FN unalias_run
+
+// ---- the `export` builtin (C09): every NAME=VALUE word, in order, puts VALUE -- unquoted, and with a leading ~ of an unquoted value expanded -- under NAME into the environment ----
+// the NAME=VALUE pattern of export: uninterpreted; what it must accept and how it takes a word apart is the bounded axiom `name_value`
+pub uninterp spec fn spec_nv(t: Seq<char>) -> Option<(Seq<char>, Seq<char>)>;
+pub struct VxNvRe { pub id: int }
+pub struct VxNvCap { pub g1: String, pub g2: String }
+#[verifier::external_body]
+pub fn vx_nv_regex(ptn: &str) -> (r: VxNvRe) { unimplemented!() }
+impl VxNvRe {
+    #[verifier::external_body]
+    pub fn is_match(&self, t: &str) -> (r: bool) ensures r == spec_nv(t@).is_some() { unimplemented!() }
+    // an anchored pattern matches at most once
+    #[verifier::external_body]
+    pub fn captures_iter(&self, t: &str) -> (r: Vec<VxNvCap>)
+        ensures match spec_nv(t@) { Some(pr) => r@.len() == 1 && r@[0].g1@ == pr.0 && r@[0].g2@ == pr.1, None => r@.len() == 0 }
+    { unimplemented!() }
+}
+pub uninterp spec fn spec_is_env(t: Seq<char>) -> bool;
+#[verifier::external_body]
+pub fn is_env(line: &str) -> (r: bool) ensures r == spec_is_env(line@) { unimplemented!() }
+// parser_line::unquote (contract in U-TOK) and libs::path::expand_home: uninterpreted here
+pub uninterp spec fn spec_unquote(t: Seq<char>) -> Seq<char>;
+#[verifier::external_body]
+pub fn unquote(text: &str) -> (r: String) ensures r@ == spec_unquote(text@) { unimplemented!() }
+pub uninterp spec fn spec_tilde(t: Seq<char>) -> Seq<char>;
+#[verifier::external_body]
+pub fn expand_home(text: &str) -> (r: String) ensures r@ == spec_tilde(text@) { unimplemented!() }
+pub open spec fn export_value(v: Seq<char>) -> Seq<char> {
+    let u = spec_unquote(v);
+    if u == v && u.len() > 0 && u[0] == '~' { spec_tilde(u) } else { u }
+}
+pub open spec fn export_word_ok(w: Seq<char>) -> bool { w == "export"@ || (spec_is_env(w) && spec_nv(w).is_some()) }
+// the environment after the first n words of the command
+pub open spec fn export_env(words: Seq<Token>, n: int, e: Map<Seq<char>, Seq<char>>) -> Map<Seq<char>, Seq<char>>
+    decreases n
+{
+    if n <= 0 { e } else {
+        let prev = export_env(words, n - 1, e);
+        let w = words[n - 1].1@;
+        if w == "export"@ { prev } else { match spec_nv(w) { Some(pr) => prev.insert(pr.0, export_value(pr.1)), None => prev } }
+    }
+}
+pub proof fn lemma_export_ext(a: Seq<Token>, b: Seq<Token>, n: int, e: Map<Seq<char>, Seq<char>>)
+    requires 0 <= n <= a.len(), n <= b.len(), forall|j: int| 0 <= j < n ==> (#[trigger] a[j]).1@ == b[j].1@
+    ensures export_env(a, n, e) == export_env(b, n, e)
+    decreases n
+{
+    if n > 0 { lemma_export_ext(a, b, n - 1, e); }
+}
+//@FN export_run
 ''' + common.TAIL
 
 S = 'src/shell.rs'
@@ -226,7 +276,36 @@ unalias_run = Fn('src/builtins/unalias.rs', 'run', rename='unalias_run', ret='r'
          '&& (r.status == 0) == smap(old(sh).aliases).contains_key(cmd.tokens@[1].1@)'),
         ('C17.unalias.otherwise_nothing_changes', 'cmd.tokens@.len() != 2 ==> smap(final(sh).aliases) == smap(old(sh).aliases) && r.status == 1'),
     ])
-UNIT = Unit('U-ENV', TEMPLATE, fns=[remove_func, set_func, set_env, remove_env, set_shell_vars, cd_run, unset_run, unalias_run,
+export_run = Fn('src/builtins/export.rs', 'run', rename='export_run', ret='r', add_params='Tracked(p): Tracked<&mut Penv>',
+    pre_rewrites=TYRW + [
+        Rw('let tokens = cmd.tokens.clone();', 'let tokens = vx_clone_tokens(&cmd.tokens);', rule='R7'),
+        Rw(r'Regex::new\(r"([^"]*)"\)\.unwrap\(\)', r'vx_nv_regex("\1")', regex=True, rule='R10', why='the NAME=VALUE pattern through an opaque type (axiom name_value)'),
+        Rw('tools::is_env(', 'is_env(', rule='R0'),
+        Rw('parsers::parser_line::unquote(&cap[2])', 'unquote(&cap.g2)', rule='R12', why='capture group 2 through the opaque capture type'),
+        Rw('cap[1].to_string()', 'vx_s(&cap.g1)', rule='R12'),
+        Rw('token == cap[2]', 'vx_streq(&token, &cap.g2)', required=False, rule='R12'),
+        Rw('libs::path::expand_home(', 'expand_home(', rule='R0'),
+        Rw('env::set_var(name, &value);', 'vx_env_set_var(&name, &value, Tracked(p));', rule='R8', why='std::env::set_var through the ghost process environment'),
+        Rw('for cap in re_name_ptn.captures_iter(text) {', 'let __caps = re_name_ptn.captures_iter(text); for cap in __caps.iter() {', rule='R11', why='captures_iter of an anchored pattern: at most one match, through a shim'),
+        Rw('for (_, text) in tokens.iter() {', 'for (_sep, text) in tokens.iter() {', rule='R13', why='`_` pattern named'),
+    ],
+    ensures=[
+        # the environment afterwards is what the words of the command, taken in order, make of the one before -- up to the first word that is not NAME=VALUE
+        ('C09.export.every_word_puts_its_value_under_its_name_in_order',
+         'exists|k: int| 0 <= k <= cmd.tokens@.len() && final(p).env == export_env(cmd.tokens@, k, old(p).env) && final(p).cwd == old(p).cwd '
+         '&& (k == cmd.tokens@.len() || !export_word_ok(cmd.tokens@[k].1@))'),
+    ],
+    loops={0: Loop(invariant=[('C09.inv.export.so_far', 'p.env == export_env(tokens@, __i0 as int, old(p).env) && p.cwd == old(p).cwd && tokens@.len() == cmd.tokens@.len() '
+                               '&& forall|j: int| 0 <= j < tokens@.len() ==> (#[trigger] tokens@[j]).1@ == cmd.tokens@[j].1@')]),
+           1: Loop(invariant=[('C09.inv.export.one_capture', 'p.cwd == old(p).cwd && tokens@.len() == cmd.tokens@.len() && (forall|j: int| 0 <= j < tokens@.len() ==> (#[trigger] tokens@[j]).1@ == cmd.tokens@[j].1@) '
+                               '&& spec_nv(text@).is_some() && __caps@.len() == 1 && __caps@[0].g1@ == spec_nv(text@).unwrap().0 && __caps@[0].g2@ == spec_nv(text@).unwrap().1 '
+                               '&& text@ == tokens@[__i0 - 1].1@ && text@ != "export"@ && 0 < __i0 <= tokens@.len() '
+                               '&& p.env == (if __i1 == 0 { export_env(tokens@, __i0 - 1, old(p).env) } else { export_env(tokens@, __i0 as int, old(p).env) })')])},
+    hints={'before-text-all:return cr;': 'lemma_export_ext(tokens@, cmd.tokens@, __i0 - 1, old(p).env); assert(!export_word_ok(cmd.tokens@[__i0 - 1].1@)); '
+                                         'assert(p.env == export_env(cmd.tokens@, __i0 - 1, old(p).env));',
+           'loop-0-exit': 'lemma_export_ext(tokens@, cmd.tokens@, tokens@.len() as int, old(p).env);'},
+)
+UNIT = Unit('U-ENV', TEMPLATE, fns=[remove_func, set_func, set_env, remove_env, set_shell_vars, cd_run, unset_run, unalias_run, export_run,
                                      Fn('src/types.rs', 'new', impl='CommandResult', ret='r', ensures=[('C09+C10.cr.new', 'r.status == 0')])],
             types=[TypeItem('src/types.rs', 'struct', 'Job'), TypeItem('src/shell.rs', 'struct', 'Shell', rewrites=[Rw('types::Job', 'Job', rule='R0')]),
                    TypeItem('src/types.rs', 'struct', 'Command'), TypeItem('src/types.rs', 'struct', 'CommandLine'), TypeItem('src/types.rs', 'struct', 'CommandResult')],
